@@ -15,7 +15,8 @@
    empty list. (Init of a non-empty list leaves its former elements with
    e.list == l, in container/list exactly as in the fork; the sequence
    semantics does not describe that, the lock-step comparison covers it.) *)
-From Typ Require Import Lib.Base Lists.Heap Lists.ListModel Lists.ListSpec Lists.ListProofs.
+From Typ Require Import Lib.Base Lists.Heap Lists.ListModel Lists.ListSpec Lists.ListProofs
+  Lists.RingModel Lists.RingSpec Lists.RingProofs.
 
 (* Refinement: on every covered history the model returns exactly the values
    of the sequence semantics (element handles, removed values, lengths, nil
@@ -120,6 +121,48 @@ Proof.
 Qed.
 Print Assumptions C06_spec_surgery.
 
+(* ---------------------------------------------------------------- Ring ----
+
+   The pointer model of lists.Ring (Lists/RingModel.v) refines the cycle
+   semantics of container/ring (Lists/RingSpec.v: the initialised nodes are
+   partitioned into cyclic sequences; a zero Ring becomes a one-element ring
+   when first used; Next/Prev/Move walk the cycle; Link splices or cuts as
+   documented; Unlink n = Link(Move(n+1)); Len/Do = length / values of the
+   cycle from r) on EVERY history over every pair of handles (same ring, other
+   ring, zero Ring, nil) and every count: same return values (node handles,
+   Len, Do sequences, nil-dereference panics exactly for a nil receiver), same
+   handle table, and the final heap represents ([RRep]) the final partition. *)
+Theorem C06_ring_refines_spec : forall ops,
+  exists h, rrun ops = (fst (fst (rspec_run ops)), RRState h (snd (rspec_run ops))) /\
+            RRep h (snd (fst (rspec_run ops))).
+Proof. exact ring_refines_spec. Qed.
+Print Assumptions C06_ring_refines_spec.
+
+(* Well-formedness after every history: next and prev are mutually inverse on
+   the initialised nodes and stay inside the heap; a node is either fully
+   initialised or a zero Ring. *)
+Theorem C06_ring_wf : forall ops,
+  let h := rh (snd (rrun ops)) in
+  (forall i n, rnx h i = Some n -> n < length h /\ rpv h n = Some i) /\
+  (forall i p, rpv h i = Some p -> p < length h /\ rnx h p = Some i) /\
+  (forall i, rnx h i = None <-> rpv h i = None).
+Proof. exact ring_wf. Qed.
+Print Assumptions C06_ring_wf.
+
+(* What Link does to the partition, case by case (r's ring written r :: A):
+   Link(r,r) leaves r alone and A as a ring; s in the same ring cuts out the
+   nodes strictly between r and s; s in another ring s :: B gives r :: s :: B ++ A.
+   (The value returned is always the old r.Next(), see [rspec_exec].) *)
+Theorem C06_ring_link : forall cs r A rest,
+  ext cs r = (r :: A, rest) ->
+  a_link cs r r = [r] :: cons_ne A rest /\
+  (forall s A1 B, s <> r -> A = A1 ++ s :: B -> ~ In s A1 ->
+     a_link cs r s = (r :: s :: B) :: cons_ne A1 rest) /\
+  (forall s B rest2, s <> r -> ~ In s A -> ext rest s = (s :: B, rest2) ->
+     a_link cs r s = (r :: s :: B ++ A) :: rest2).
+Proof. exact a_link_cases. Qed.
+Print Assumptions C06_ring_link.
+
 (* Non-vacuity: a covered history with a zero-value list, a foreign handle, a
    removed handle, a never-inserted Element, a nil handle and a self
    PushBackList; model and specification agree on it (evaluated). *)
@@ -131,4 +174,14 @@ Example C06_example :
   fst (run ops) = (let '(os, _, _, _) := spec_run ops in os) /\
   walk_fwd (st (snd (run ops))) 0 = Ok [7; 3; 6] /\
   nth 10 (fst (run ops)) OUnit = OPanic NilDeref.
+Proof. vm_compute. repeat split. Qed.
+
+(* Non-vacuity for rings: NewRing, a zero Ring, Link of different rings, Link
+   inside one ring, Unlink, negative Move, nil handles (evaluated). *)
+Example C06_ring_example :
+  let ops := [RNew 3 10; RZero 20; RNew 2 30; RLink 0 1; RDo 0; RLink 0 2; RDo 0; RMove 0 (-2); RLink 0 3;
+              RDo 0; RDo 3; RUnlink 0 1; RLen 0; RNext 9; RLen 9]%Z in
+  fst (rrun ops) = fst (fst (rspec_run ops)) /\
+  nth 6 (fst (rrun ops)) (ROInt 0) = ROSeq [10; 30; 31; 20; 11; 12]%Z /\
+  nth 13 (fst (rrun ops)) (ROInt 0) = ROPanic NilDeref.
 Proof. vm_compute. repeat split. Qed.
